@@ -57,6 +57,24 @@ def paths(t):
     return out
 
 
+def _own_option_tokens(t, p):
+    """tokens giving the first own option of the command at path p (with a value when it takes one)"""
+    cs = t["cmds"]
+    c = None
+    for n in p:
+        c = next((x for x in cs if x["name"] == n), None)
+        if c is None:
+            return []
+        cs = c["subs"]
+    for o in c["opts"]:
+        if o["flags"] & G.NO_VALUE:
+            return ["--" + o["long"]]
+        if o["flags"] & G.O_INT:
+            return ["--" + o["long"], "3"]
+        return ["--" + o["long"], "val"]
+    return []
+
+
 def gen(rng, tier, info):
     ntrees = {"quick": 14, "thorough": 60, "search": 6}[tier]
     cases = []
@@ -74,6 +92,11 @@ def gen(rng, tier, info):
             lines.append(p + vals)
             if rng.random() < 0.5:
                 lines.append(p + vals + ["boom"])
+            # the command's OWN options on the line, directly behind the path (a switch placed after them must act the
+            # same: seeded change C09-h)
+            own = _own_option_tokens(t, p)
+            if own:
+                lines.append(p + own + vals)
         for line in lines:
             cases.append({"tree": t, "toks": line, "k": len(line)})
             for sel in sel2:
